@@ -86,6 +86,8 @@ def gen_sign_step(rng, sid, knames, full_options=False):
                     opts[name] = rng.choice(['https://example.org/policy', 'http://x/', 'https://example.org/üñï'])
                 elif name == 'created_offset_s':
                     opts[name] = rng.choice([-86400, -1, 0, 1, 3600])
+                    if rng.random() < 0.3:
+                        opts['created_naive'] = True
                 else:
                     opts[name] = True
         if kind in ('cert_self', 'direct_self', 'uattr_cert', 'bind'):
@@ -182,6 +184,9 @@ class SigWorld(object):
             kw['user'] = key.userids[0].name
         if 'created_offset_s' in o:
             kw['created'] = seams.clock().dt().replace(microsecond=0) + datetime.timedelta(seconds=o['created_offset_s'])
+            if o.get('created_naive'):
+                # the same instant as a naive datetime (fields in UTC): PGPy warns and reads it so
+                kw['created'] = kw['created'].replace(tzinfo=None)
         if o.get('no_issuer_fpr'):
             kw['include_issuer_fingerprint'] = False
         if o.get('intended'):
@@ -228,16 +233,20 @@ class SigWorld(object):
         art.signer_name = st['key']
         tgt = self.keys.get(st.get('target')) or key
         try:
+            self.last_live = None
             if kind == 'doc':
                 data = bytes.fromhex(st['data'])
                 sig = key.sign(data, **kw)
                 art.subject = {'t': 'doc', 'data': data}
+                self.last_live = (data, sig)
             elif kind == 'text':
                 sig = key.sign(st['text'], **kw)
                 art.subject = {'t': 'doc', 'data': st['text'].encode('utf-8'), 'as_str': True}
+                self.last_live = (st['text'], sig)
             elif kind == 'timestamp':
                 sig = key.sign(None, **kw)
                 art.subject = {'t': 'none'}
+                self.last_live = (None, sig)
             elif kind == 'msg':
                 msg = pgpy.PGPMessage.new(bytes.fromhex(st['data']), compression=C.CompressionAlgorithm(st.get('compression', 0)),
                                           format='b')
